@@ -107,6 +107,10 @@ def run(ctx):
            f"no directory enumeration among {len(reach_conf)} functions "
            "reachable from assign_confidence")
     _check_rollup_filter(ctx)
+    # a whole-table write never adds to an existing file (shared with C13):
+    # the temporary score chunks and the rollup results go through write()
+    from .c13 import write_overrides_start_fresh
+    write_overrides_start_fresh(ctx, "C09b-write-starts-fresh")
     _check_sorted_iterator(ctx)
     # ---------------------------------------------------------------- b
     n_open = 0
@@ -228,7 +232,7 @@ def _check_no_dropped_effects(ctx, reach_all):
            "filter / generator expression used as a statement")
 
 
-def _check_rollup_filter(ctx):
+def _check_rollup_filter(ctx, rule="C09a-rollup-excludes-own-output"):
     prog = ctx.prog
     f = prog.func("mokapot.brew_rollup.do_rollup")
     du = DefUse(prog, f)
@@ -283,7 +287,7 @@ def _check_rollup_filter(ctx):
     for part in reader_lists:
         it = part[3][0][1]
         ok = all(filtered(x) for x in leaves(it))
-        ctx.check(ok, "C09a-rollup-excludes-own-output", f,
+        ctx.check(ok, rule, f,
                   f"input list {show(it, 80)} excludes "
                   "files starting with the tool's own file_root",
                   f"on some path the list of input files is not filtered by "
